@@ -45,7 +45,7 @@ theorem C09_once (c : Cfg) (s : St) (h : Reach c s) (j : Nat) :
     of total capacity 1 full) -/
 example : ∃ s, Reach ⟨1, 1, 1, 1, 0, true, true⟩ s ∧ s.finished = [0] ∧ s.rejected = [2] ∧ s.accepted = [1, 0] :=
   ⟨_, reach_runActs (s := init) [.submit false, .sCheck 0, .sOffer 0 false, .sToken 0, .spWake, .spCheck, .spCnt1,
-      .spCnt2 false, .spRead, .spGen, .wCheck 0, .wRecv 0, .wStart 0, .submit false, .sCheck 1, .sOffer 1 false,
+      .spCnt2 false, .spRead, .spInit, .spGen, .wCheck 0, .wRecv 0, .wStart 0, .submit false, .sCheck 1, .sOffer 1 false,
       .sToken 1, .submit false, .sCheck 2, .sOffer 2 true, .sToken 2, .wFinish 0, .wBusyDec 0] Reach.init rfl,
    by decide, by decide, by decide⟩
 
@@ -66,8 +66,8 @@ theorem C09_cap (c : Cfg) (s : St) (h : Reach c s) :
 /-- non-vacuity: max = 1, jam rule fired (target 2) with the only worker busy: still one worker -/
 example : ∃ s, Reach ⟨1, 1, 1, 4, 4, true, true⟩ s ∧ s.count = 1 ∧ s.busy = 1 ∧ s.sp = .sleep :=
   ⟨_, reach_runActs (s := init) [.submit false, .sCheck 0, .sOffer 0 false, .sToken 0, .spWake, .spCheck, .spCnt1,
-      .spCnt2 false, .spRead, .spGen, .wCheck 0, .wRecv 0, .wStart 0, .spSleep, .submit false, .sCheck 1,
-      .sOffer 1 false, .sToken 1, .spWake, .spCheck, .spCnt1, .spCnt2 true, .spRead, .spGen] Reach.init rfl,
+      .spCnt2 false, .spRead, .spInit, .spGen, .wCheck 0, .wRecv 0, .wStart 0, .spSleep, .submit false, .sCheck 1,
+      .sOffer 1 false, .sToken 1, .spWake, .spCheck, .spCnt1, .spCnt2 true, .spRead, .spInit, .spGen] Reach.init rfl,
    by decide, by decide, by decide⟩
 
 /-! ## panics are isolated -/
@@ -131,7 +131,7 @@ theorem C09_panic_exit_nil (c : Cfg) (s : St) (w j v : Nat) (hw : s.workers[w]? 
 example : ∃ s, Reach ⟨1, 1, 1, 2, 0, true, true⟩ s ∧ s.handlerLog = [(0, 7)] ∧ s.token = true ∧ s.queue = [1] ∧
     s.count = 0 ∧ s.busy = 0 :=
   ⟨_, reach_runActs (s := init) [.submit false, .sCheck 0, .sOffer 0 false, .sToken 0, .spWake, .spCheck, .spCnt1,
-      .spCnt2 false, .spRead, .spGen, .wCheck 0, .wRecv 0, .wStart 0, .spSleep, .submit false, .sCheck 1,
+      .spCnt2 false, .spRead, .spInit, .spGen, .wCheck 0, .wRecv 0, .wStart 0, .spSleep, .submit false, .sCheck 1,
       .sOffer 1 false, .sToken 1, .spWake, .spCheck, .spCnt1, .spCnt2 false, .spRead, .spSleep,
       .wPanic 0 7, .wHandler 0, .wExitDec 0, .wExitTok 0] Reach.init rfl,
    by decide, by decide, by decide, by decide, by decide⟩
@@ -246,6 +246,13 @@ theorem C09_progress_steps (c : Cfg) (s : St) :
   · intro i e h1 h2 h3 h4
     have : ¬ (e = 0 ∨ c.max = 0) := by omega
     simp [step, stepPool, h1, h2, genWorker, h3, this]
+
+/-- trySpawn reads `workerCount` twice without the lock (`if workerCount < e` — `spRead` —, then the loop initialiser
+    `i := workerCount` — `spInit`): here PreAllocWorkerSize starts the worker between the two reads, the loop body is
+    never entered and the spawn loop goes to sleep with one worker alive (the `enter` case of the progress invariants) -/
+example : ∃ s, Reach ⟨1, 1, 1, 2, 0, true, true⟩ s ∧ s.count = 1 ∧ s.sp = .sleep ∧ s.workers = [.top] :=
+  ⟨_, reach_runActs (s := init) [.notify, .spWake, .spCheck, .spCnt1, .spCnt2 false, .spRead, .gen 1, .spInit]
+      Reach.init rfl, by decide, by decide, by decide⟩
 
 /-- C09_progress_on_demand (invariant; the on-demand configuration of the property's quantifier: "standby 0 with
     workerBatchSize ≥ 1 and an idle-expiry longer than the run" — `ReachNE` = every execution in which no idle
